@@ -24,6 +24,7 @@ META = {
 def check(ctx):
     step.step_sv(ctx)
     step.role_sv_steppers(ctx)
+    step.sv_initial_state(ctx)
     ctx.floor("STEP-sv", 8)
     ctx.floor("ROLE-sv", 10)
     ctx.floor("UNITS-sv", 2)
